@@ -1319,11 +1319,26 @@ func (f *Frame) closureWriteEffects(v ssa.Value, li *loopInfo) {
 			}
 		}
 		if mc == nil {
-			// called through a variable holding a closure we cannot resolve statically
-			if _, isFn := v.(*ssa.Function); !isFn {
-				if _, isBuiltin := v.(*ssa.Builtin); !isBuiltin {
-					if _, ok := v.Type().Underlying().(*types.Signature); ok && !isGlobalFuncValue(v) {
-						li.privAll = true
+			// called through a func value we cannot resolve statically: it can only
+			// assign captured locals of this function if it is one of the closures
+			// made here, with the same signature, that writes a captured variable
+			sig, ok := v.Type().Underlying().(*types.Signature)
+			if !ok {
+				return
+			}
+			if _, isFn := v.(*ssa.Function); isFn {
+				return
+			}
+			if _, isBuiltin := v.(*ssa.Builtin); isBuiltin {
+				return
+			}
+			for _, b := range f.fn.Blocks {
+				for _, in := range b.Instrs {
+					if m2, ok := in.(*ssa.MakeClosure); ok {
+						cf := m2.Fn.(*ssa.Function)
+						if types.Identical(cf.Signature, sig) && len(freeVarWrites(cf, map[*ssa.Function]bool{})) > 0 {
+							li.privAll = true
+						}
 					}
 				}
 			}
